@@ -252,6 +252,42 @@ def main():
         samples.extend(st["samples"][:6])
         notes.extend(n for n in st["notes"] if n not in notes)
         nontrivial += st["nontrivial"]
+    if pid == "C19":
+        # C19-R4: a rule instance of any property that fails in some analysed configurations but not in all of
+        # them is configuration dependent behaviour
+        okc = [c for c in res["configs"] if not c.get("error")]
+        names = [c["config"] for c in okc]
+        per = {}
+        for c in okc:
+            for q, pr in c["props"].items():
+                if q == "C19":
+                    continue
+                for v in pr["violations"]:
+                    if v["rule"] in ALWAYS:
+                        continue
+                    per.setdefault((q, v["rule"], family(v["key"])), {"cfgs": set(), "v": v})["cfgs"].add(c["config"])
+        n4 = 0
+        for (q, rule, fk), info in sorted(per.items()):
+            n4 += 1
+            if len(info["cfgs"]) < len(names):
+                v = info["v"]
+                viols.append({"rule": "C19-R4", "key": "%s|%s|%s" % (q, rule, fk), "detail": "rule %s of %s fails only in configuration(s) %s and holds in %s: behaviour differs between features/profiles. %s" % (
+                    rule, q, sorted(info["cfgs"]), sorted(set(names) - info["cfgs"]), v["detail"][:300]), "where": v["where"], "config": ",".join(sorted(info["cfgs"]))})
+        counts["C19-R4"] = counts.get("C19-R4", 0) + sum(sum(pr["counts"].values()) for c in okc for q, pr in c["props"].items() if q != "C19")
+        # count-delta between configurations that differ only in debug assertions
+        byf = {}
+        for c in okc:
+            byf.setdefault(c["describe"].split(" debug_assertions=")[0], []).append(c)
+        for feats, cs in byf.items():
+            if len(cs) == 2:
+                a_, b_ = cs
+                for q in a_["props"]:
+                    if q == "C19":
+                        continue
+                    ca, cb = a_["props"][q]["counts"], b_["props"].get(q, {}).get("counts", {})
+                    for r_ in sorted(set(ca) | set(cb)):
+                        if ca.get(r_, 0) != cb.get(r_, 0):
+                            viols.append({"rule": "C19-R4", "key": "count-delta|%s|%s|%s" % (feats, q, r_), "detail": "rule %s judges %d instances with debug assertions on and %d with them off (%s): the set of judged sites depends on the build profile" % (r_, ca.get(r_, 0), cb.get(r_, 0), feats), "where": None, "config": a_["config"]})
     # de-duplicate violations across configurations by (rule, family key)
     known = load_known()
     uniq = {}
